@@ -2,17 +2,92 @@
    Property theorems only; each is closed by `exact` of a lemma of Proofs/Regions*.v.  The model
    (Model/Regions.v) calls the kernels of Generated/GenRegions.v, which are re-translated from the text
    of rig/machine_control/regions.py on every run, so these theorems are re-checked against the
-   current shift/mask expressions, constants and child order of the code. *)
-From Coq Require Import ZArith List Bool.
+   current shift/mask expressions, constants and child order of the code.
+
+   [compress cs] models compress_flood_fill_regions on the sequence cs of cores (x, y, p) in the order
+   in which the two loops of the function meet them (any order, duplicates allowed).  [selects],
+   [pair_selects], [times_selected], [in_space], [requested], [pair_lt], [ffcs_key], [pair_well_formed]
+   are defined in Spec/Regions.v from the documented meaning of a region word. *)
+From Coq Require Import ZArith List Bool Sorted.
 Require Import Rig.Generated.GenRegions Rig.Model.Base Rig.Model.Regions Rig.Spec.Regions.
-Require Import Rig.Proofs.RegionsBits.
+Require Import Rig.Proofs.RegionsBits Rig.Proofs.RegionsLists Rig.Proofs.Regions Rig.Proofs.RegionsOrder.
 Import ListNotations.
 Open Scope Z_scope.
 
-(* Bit layer (finite; the bound is in the statement): the word built by get_region_for_chip with
-   shifts and masks is, for every chip of the 256 x 256 space and every level, the word whose digits
-   are the block corner, the level and the single sub-block bit of the chip. *)
+(* Exactness, for every finite sequence of cores of the 256 x 256 x 18 space: the call returns, and
+   every core whatsoever (x, y, p range over all integers) is selected by exactly one of the returned
+   pairs if it was requested and by none otherwise -- nothing missing, nothing extra, nothing twice. *)
+Theorem C12_compress_exact :
+  forall cs, Forall in_space cs ->
+    exists out, compress cs = Ok out /\
+      forall x y p, times_selected out x y p = if requested cs x y p then 1%nat else 0%nat.
+Proof. exact compress_exact. Qed.
+
+(* The pairs come in strictly increasing order -- already their region words increase strictly (so no
+   region word is sent twice) -- and each is a 32-bit word with a non-empty 18-bit core mask. *)
+Theorem C12_compress_strictly_sorted :
+  forall cs out, compress cs = Ok out ->
+    StronglySorted (fun a b => fst a < fst b) out /\ Forall pair_well_formed out.
+Proof. exact compress_sorted. Qed.
+
+(* Hence strictly increasing as pairs, and as the loader's key (region << 18) | core_mask. *)
+Theorem C12_compress_pairs_increasing :
+  forall cs out, compress cs = Ok out ->
+    StronglySorted pair_lt out /\ StronglySorted (fun a b => ffcs_key a < ffcs_key b) out.
+Proof. exact compress_pairs_increasing. Qed.
+
+(* The domain is exact: the call returns iff every core is inside the space; otherwise the model
+   raises ValueError ([Failed 0]), as add_core documents. *)
+Theorem C12_compress_returns_iff_in_space :
+  forall cs, (exists out, compress cs = Ok out) <-> Forall in_space cs.
+Proof. exact compress_ok_iff. Qed.
+
+Theorem C12_compress_outside_space_raises :
+  forall cs, Exists (fun c => ~ in_space c) cs -> compress cs = Failed 0.
+Proof. exact compress_outside. Qed.
+
+(* A single-chip region word -- get_region_for_chip with its default level, 3 -- selects that chip
+   only (x', y' range over all integers). *)
+Theorem C12_region_for_chip_level3_single :
+  forall x y x' y', 0 <= x < 256 -> 0 <= y < 256 ->
+    selects (get_region_for_chip x y get_region_for_chip_default_level) x' y' = true
+    <-> x' = x /\ y' = y.
+Proof. exact region_for_chip_level3_single. Qed.
+
+(* At any level the word of a chip selects exactly the chips of the chip's sub-block of that level
+   ("for other regions surrounding chips will also be selected"). *)
+Theorem C12_region_for_chip_selects_sub_block :
+  forall x y l x' y', 0 <= x < 256 -> 0 <= y < 256 -> 0 <= l <= 3 ->
+    selects (get_region_for_chip x y l) x' y' = true
+    <-> x' / sub_side l = x / sub_side l /\ y' / sub_side l = y / sub_side l.
+Proof. exact region_for_chip_selects. Qed.
+
+(* Bit layer (finite; the bound is in the statement; proved by evaluating a boolean check over the
+   whole space with vm_compute): the shift/mask expressions translated from the code agree, for
+   every chip of the 256 x 256 space and every level, with the division/remainder reading. *)
 Theorem C12_region_for_chip_digits :
   forall x y l, 0 <= x < 256 -> 0 <= y < 256 -> 0 <= l <= 3 ->
     get_region_for_chip x y l = expected_word x y l.
 Proof. exact region_for_chip_digits. Qed.
+
+Theorem C12_subregion_index_digits :
+  forall x y l, 0 <= x < 256 -> 0 <= y < 256 -> 0 <= l <= 3 ->
+    subregion_index x y (tree_shift l) = (x / sub_side l) mod 4 + 4 * ((y / sub_side l) mod 4).
+Proof. exact subregion_index_digits. Qed.
+
+Theorem C12_region_code_digits :
+  forall bx by_ l, 0 <= bx < 256 -> 0 <= by_ < 256 -> 0 <= l <= 3 -> by_ mod 4 = 0 ->
+    region_code bx by_ l = (bx * 256 + by_ + l) * 2 ^ 16.
+Proof. exact region_code_digits. Qed.
+
+(* Non-vacuity: the target set of rig's own test (two level-3 blocks, different cores per chip), given
+   with a duplicate and in scrambled order, is inside the space, and the model returns for it the four
+   pairs the implementation returns; a core outside the space meets the guard of the error theorem. *)
+Example C12_hypotheses_satisfiable :
+  Forall in_space ex_targets /\
+  compress ex_targets = Ok [(196610, 8); (196625, 18); (196627, 4); (67305473, 22)].
+Proof. exact ex_targets_ok. Qed.
+
+Example C12_outside_guard_satisfiable :
+  Exists (fun c => ~ in_space c) [(0, 0, 1); (256, 0, 1)] /\ compress [(0, 0, 1); (256, 0, 1)] = Failed 0.
+Proof. exact ex_outside_ok. Qed.
